@@ -129,17 +129,55 @@ class LayoutChanged(Exception):
 
 
 # ---- abstraction of the implementation state ---------------------------------------------------------
-def parent_pool(parent_thread):
+def parent_pool(parent_thread, memo=None):
+    """the set of workers the parent still tracks, read from the implementation's own state: the dict of live worker
+    processes (name -> process object) held by a frame of annet/parallel.py on the parent's stack - as a local (`pool`
+    in irun) or as an attribute of a local state object (a refactoring may keep it in a dataclass). The dict is
+    recognised by what it holds (virtual process objects keyed by their names), and once seen it is followed by identity,
+    so that it is still found when it is empty. Anything ambiguous raises LayoutChanged (= not decided)."""
+    from mc.sched import VProcess
+    memo = memo if memo is not None else {}
     fr = sys._current_frames().get(parent_thread.ident)
+    dicts = {}
+    in_parallel = False
     while fr is not None:
-        if fr.f_code.co_name == "irun" and fr.f_code.co_filename.endswith("annet/parallel.py"):
-            if "pool" not in fr.f_locals:
-                # irun no longer keeps its live workers in a local called `pool`: the abstraction does not fit this tree
-                raise LayoutChanged("irun has no local 'pool'")
-            p = fr.f_locals.get("pool")
-            return None if p is None else frozenset(int(n.split("-")[1]) for n in p.keys())
+        if fr.f_code.co_filename.endswith("annet/parallel.py"):
+            in_parallel = True
+            for name, val in list(fr.f_locals.items()):
+                objs = [(name, val)]
+                inner = getattr(val, "__dict__", None)
+                if isinstance(inner, dict) and not isinstance(val, type) and type(val).__module__ != "builtins":
+                    objs += [("%s.%s" % (name, k), v) for k, v in inner.items()]
+                for label, obj in objs:
+                    if isinstance(obj, dict):
+                        dicts.setdefault(id(obj), (label, obj))
         fr = fr.f_back
-    return None
+    if not in_parallel:
+        return None
+    full = [(lbl, d) for (lbl, d) in dicts.values() if d and all(isinstance(v, VProcess) for v in d.values())
+            and all(isinstance(k, str) for k in d)]
+    ids = {id(d) for _, d in full}
+    if len(ids) > 1:
+        raise LayoutChanged("more than one dict of worker processes on the parent's stack: %r" % sorted(l for l, _ in full))
+    if full:
+        memo["pool_id"] = id(full[0][1])
+        memo["pool_label"] = full[0][0]
+        d = full[0][1]
+    elif memo.get("pool_id") in dicts:
+        d = dicts[memo["pool_id"]][1]
+    elif "pool_id" not in memo:
+        # no worker has been created yet: nothing is tracked
+        return frozenset()
+    else:
+        # the dict seen before is gone and no populated one is in sight: an emptied pool kept in a fresh object
+        empties = [lbl for (lbl, d) in dicts.values() if not d and lbl == memo.get("pool_label")]
+        if empties:
+            return frozenset()
+        raise LayoutChanged("the dict of worker processes seen earlier (%s) is no longer on the parent's stack" % memo.get("pool_label"))
+    try:
+        return frozenset(int(n.split("-")[1]) for n in d.keys())
+    except (ValueError, IndexError):
+        raise LayoutChanged("worker names are no longer Worker-<n>: %r" % list(d.keys()))
 
 
 def abstract(ex, PS, N):
@@ -179,7 +217,7 @@ def abstract(ex, PS, N):
         pc = "done"
     else:
         pc = {"put": "putstop", "start": "start|restart", "poll": "poll", "exitcode": "check"}.get(parent.op[0], "?%r" % (parent.op,))
-    pool = parent_pool(parent.thread) if not parent.done else frozenset()
+    pool = parent_pool(parent.thread, ex.__dict__.setdefault('_conform_memo', {})) if not parent.done else frozenset()
     delivered = [0] * N
     for d in ex.delivered:
         delivered[d[0]] += 1
